@@ -4,6 +4,7 @@
 //
 // Copyright (c) 2023, Olof Kraigher olof.kraigher@gmail.com
 
+use super::names::ResolvedName;
 use super::*;
 use crate::ast::*;
 use crate::data::error_codes::ErrorCode;
@@ -19,14 +20,17 @@ impl<'a> AnalyzeContext<'a, '_> {
         subtype_indication: &mut SubtypeIndication,
         diagnostics: &mut dyn DiagnosticHandler,
     ) -> EvalResult<Subtype<'a>> {
-        // @TODO more
         let SubtypeIndication {
+            resolution,
             type_mark,
             constraint,
-            ..
         } = subtype_indication;
 
         let base_type = self.type_name(scope, type_mark.span, &mut type_mark.item, diagnostics)?;
+
+        if let Some(resolution) = resolution {
+            self.analyze_resolution_indication(scope, base_type, resolution, diagnostics)?;
+        }
 
         if let Some(constraint) = constraint {
             self.analyze_subtype_constraint(
@@ -651,6 +655,123 @@ impl<'a> AnalyzeContext<'a, '_> {
                         ),
                         ErrorCode::IllegalConstraint,
                     );
+                }
+            }
+        }
+        Ok(())
+    }
+
+    /// Resolves the function names of a resolution indication
+    /// that is applied to (an element of) `typ`
+    fn analyze_resolution_indication(
+        &self,
+        scope: &Scope<'a>,
+        typ: TypeEnt<'a>,
+        resolution: &mut ResolutionIndication,
+        diagnostics: &mut dyn DiagnosticHandler,
+    ) -> FatalResult {
+        match resolution {
+            ResolutionIndication::FunctionName(name) => {
+                let Some(resolved) =
+                    as_fatal(self.name_resolve(scope, name.span, &mut name.item, diagnostics))?
+                else {
+                    return Ok(());
+                };
+                if let ResolvedName::Overloaded(des, overloaded) = resolved {
+                    // The resolution function takes a one-dimensional array of the resolved type
+                    // as its single parameter and returns the resolved type
+                    let mut candidates: Vec<_> = overloaded
+                        .entities()
+                        .filter(|ent| {
+                            ent.formals().len() == 1
+                                && ent
+                                    .return_type()
+                                    .is_some_and(|ret| ret.base() == typ.base())
+                                && ent
+                                    .formals()
+                                    .nth(0)
+                                    .and_then(|formal| formal.type_mark().array_type())
+                                    .is_some_and(|(elem_type, indexes)| {
+                                        indexes.len() == 1 && elem_type.base() == typ.base()
+                                    })
+                        })
+                        .collect();
+
+                    if candidates.len() > 1 {
+                        diagnostics.push(Diagnostic::ambiguous_call(self.ctx, &des, candidates));
+                    } else if let Some(ent) = candidates.pop() {
+                        name.set_unique_reference(&ent);
+                    } else {
+                        let mut diag = Diagnostic::mismatched_kinds(
+                            name.pos(self.ctx),
+                            format!(
+                                "Cannot use '{des}' as resolution function for {}",
+                                typ.describe()
+                            ),
+                        );
+                        diag.add_subprogram_candidates("Does not match", overloaded.entities());
+                        diagnostics.push(diag);
+                    }
+                } else {
+                    diagnostics.push(
+                        Diagnostic::mismatched_kinds(
+                            name.pos(self.ctx),
+                            format!("Expected resolution function, got {}", resolved.describe()),
+                        )
+                        .opt_related(resolved.decl_pos(), "Defined here"),
+                    );
+                }
+            }
+            ResolutionIndication::Element(element) => {
+                let pos = element.pos(self.ctx);
+                match element.item {
+                    ElementResolution::Array(ref mut resolution) => {
+                        if let Some((elem_type, _)) = typ.array_type() {
+                            self.analyze_resolution_indication(
+                                scope,
+                                elem_type,
+                                resolution,
+                                diagnostics,
+                            )?;
+                        } else {
+                            diagnostics.add(
+                                pos,
+                                format!(
+                                    "Array element resolution cannot be used for {}",
+                                    typ.describe()
+                                ),
+                                ErrorCode::MismatchedKinds,
+                            );
+                        }
+                    }
+                    ElementResolution::Record(ref mut resolutions) => {
+                        if let Type::Record(region) = typ.base().kind() {
+                            for resolution in resolutions.iter_mut() {
+                                let RecordElementResolution { ident, resolution } = resolution;
+                                let des = Designator::Identifier(ident.item.clone());
+                                if let Some(elem) = region.lookup(&des) {
+                                    self.analyze_resolution_indication(
+                                        scope,
+                                        elem.type_mark(),
+                                        resolution,
+                                        diagnostics,
+                                    )?;
+                                } else {
+                                    diagnostics.push(Diagnostic::no_declaration_within(
+                                        &typ,
+                                        ident.pos(self.ctx),
+                                        &des,
+                                    ))
+                                }
+                            }
+                        } else {
+                            diagnostics.add(
+                                pos,
+                                format!("Record resolution cannot be used for {}", typ.describe()),
+                                ErrorCode::MismatchedKinds,
+                            );
+                        }
+                    }
                 }
             }
         }
